@@ -1,4 +1,137 @@
-import FluentModel.Resolver
+import FluentProofs.ResolverRefineTop
+import FluentProofs.Props.C11
+/-!
+# C08 — formatting is a pure function; string and writer APIs agree
+
+On the transcribed resolver model (`FluentModel.Resolver`): `formatPattern` is `FluentBundle::format_pattern`
+(with the single-text fast path of `Pattern::resolve`), `writePatternTop` is `FluentBundle::write_pattern`.
+Both start from a fresh `Scope` (`errors = []`: the error vector is the caller's, per call) and read the bundle only
+through `Env`; nothing is written back.  So "repeating the call, in any order relative to other calls" is a
+statement about the only object that survives a call: the memoizer holding the plural rules, which the model
+sees as `env.category`.
+-/
 namespace FluentProofs.C08
-theorem placeholder : True := trivial
+open FluentModel FluentModel.Syntax FluentModel.Num FluentModel.Resolver
+open FluentProofs.ResolverRefine
+
+/-- **format_eq_write** — `format_pattern` and `write_pattern` give the same text and the same error list, for
+every bundle, every pattern and every fuel `≥ 3` (the writer path needs three units for a one-element pattern:
+`Pattern::write`, the element, the end of the loop; the string path answers a single-text pattern without
+recursion — see the test at the end for fuel 2). -/
+theorem format_eq_write (env : Env) (fuel : Nat) (p : Pattern Bytes) (hf : 3 ≤ fuel) :
+    formatPattern env fuel p = writePatternTop env fuel p :=
+  formatPattern_eq_writePatternTop env fuel p hf
+
+/-- the same without a fuel bound: whatever the writer API returns, the string API returns; and whenever both
+return, they return the same text and errors -/
+theorem format_eq_write_of_ok (env : Env) (fuel : Nat) (p : Pattern Bytes) (r : Bytes × List RErr)
+    (h : writePatternTop env fuel p = .ok r) :
+    formatPattern env fuel p = .ok r ∧ ∀ r', formatPattern env fuel p = .ok r' → r' = r := by
+  have h1 := formatPattern_of_writePatternTop env fuel p r h
+  refine ⟨h1, fun r' h' => ?_⟩
+  rw [h1] at h'
+  cases h'; rfl
+
+/-- **format_state_independent** (extensionality) — the result is a function of what the bundle answers to the
+resolver's lookups and of the pattern, nothing else: two `Env`s that agree on the message, term and function
+lookups, the flags and hooks, the plural category of every number, number parsing, unescaping, custom-value
+stringification and the caller's arguments give equal results through both APIs.  The model has no other input:
+there is no hidden state. -/
+theorem format_state_independent (e₁ e₂ : Env)
+    (hmsg : ∀ id, e₁.msg id = e₂.msg id) (hterm : ∀ id, e₁.term id = e₂.term id) (hfn : ∀ id, e₁.fn id = e₂.fn id)
+    (hiso : e₁.useIsolating = e₂.useIsolating) (htr : e₁.transform = e₂.transform)
+    (hfmt : e₁.formatter = e₂.formatter) (hcat : ∀ n, e₁.category n = e₂.category n)
+    (htn : ∀ b, e₁.tryNumber b = e₂.tryNumber b) (hun : ∀ b, e₁.unescape b = e₂.unescape b)
+    (hcs : ∀ b, e₁.customStr b = e₂.customStr b) (hargs : e₁.args = e₂.args)
+    (fuel : Nat) (p : Pattern Bytes) :
+    formatPattern e₁ fuel p = formatPattern e₂ fuel p ∧ writePatternTop e₁ fuel p = writePatternTop e₂ fuel p := by
+  have : e₁ = e₂ := by
+    cases e₁; cases e₂
+    simp only [Env.mk.injEq]
+    exact ⟨funext hmsg, funext hterm, funext hfn, hiso, htr, hfmt, funext hcat, funext htn, funext hun, funext hcs, hargs⟩
+  subst this
+  exact ⟨rfl, rfl⟩
+
+/-- a request: which API (`true` = `write_pattern`), fuel, pattern -/
+abbrev Req := Bool × Nat × Pattern Bytes
+
+/-- one call on the bundle `env` -/
+def call (env : Env) (r : Req) : RR (Bytes × List RErr) :=
+  if r.1 then writePatternTop env r.2.1 r.2.2 else formatPattern env r.2.1 r.2.2
+
+/-- a history of calls on ONE bundle whose memoizer is in state `s` (`cat s` = the plural category the bundle
+computes in that state); every call may change the memoizer state arbitrarily (`step`) -/
+def runHistory {σ : Type} (base : Env) (cat : σ → FluentNumber → Option Category) (step : σ → Req → σ) :
+    σ → List Req → List (RR (Bytes × List RErr))
+  | _, [] => []
+  | s, r :: rs => call { base with category := cat s } r :: runHistory base cat step (step s r) rs
+
+/-- **format_state_independent, histories** — any sequence of format/write calls on one bundle, in any order, cold or
+warmed up, returns call by call what a fresh bundle returns: the only memoized object, the plural rules, enters
+through `env.category`, and the memoizer returns the same rules in every state (`hcache`; this is C14's
+`FluentProofs.C14.C14_lookup_eq_construct`: the outcomes of any history of lookups are those of constructing
+afresh each time — the cache is unobservable).  Earlier errors cannot matter: each call starts from `errors = []`. -/
+theorem format_history_independent {σ : Type} (base : Env) (cat : σ → FluentNumber → Option Category)
+    (step : σ → Req → σ) (hcache : ∀ s s' n, cat s n = cat s' n) (s₀ fresh : σ) (reqs : List Req) :
+    runHistory base cat step s₀ reqs = reqs.map (call { base with category := cat fresh }) := by
+  induction reqs generalizing s₀ with
+  | nil => rfl
+  | cons r rs ih =>
+    have : cat s₀ = cat fresh := funext (hcache s₀ fresh)
+    simp only [runHistory, List.map_cons, ih, this]
+
+/-- **args_canonical** — the result does not depend on how the arguments were inserted: two `FluentArgs` built by
+any sequences of `set` that leave the same final map are EQUAL values (`FluentProofs.C11.C11_canonical`), hence
+formatting with either gives the same result through both APIs. -/
+theorem args_canonical (env : Env) (ops₁ ops₂ : List (Bytes × Value))
+    (h : ∀ k, (ArgList.ofPairs ops₁).get k = (ArgList.ofPairs ops₂).get k) :
+    ArgList.ofPairs ops₁ = ArgList.ofPairs ops₂ ∧
+    ∀ fuel p,
+      formatPattern { env with args := some (ArgList.ofPairs ops₁) } fuel p =
+        formatPattern { env with args := some (ArgList.ofPairs ops₂) } fuel p ∧
+      writePatternTop { env with args := some (ArgList.ofPairs ops₁) } fuel p =
+        writePatternTop { env with args := some (ArgList.ofPairs ops₂) } fuel p := by
+  have e : ArgList.ofPairs ops₁ = ArgList.ofPairs ops₂ := FluentProofs.C11.C11_canonical ops₁ ops₂ h
+  exact ⟨e, fun fuel p => by rw [e]; exact ⟨rfl, rfl⟩⟩
+
+/-! ## tests on literals (non-vacuity; `decide +kernel`) -/
+section Tests
+
+def obs : RR (Bytes × List RErr) → Option (Bytes × List RErr)
+  | .ok r => some r
+  | _ => .none
+
+def tEnv : Env where
+  msg := fun _ => .none
+  term := fun _ => .none
+  fn := fun _ => .none
+  useIsolating := true
+  transform := .none
+  formatter := .none
+  category := fun _ => some .other
+  tryNumber := fun b => .str b
+  unescape := fun b => b
+  customStr := fun b => b
+  args := .none
+
+/-- test: the fuel bound of `format_eq_write` is sharp — with fuel 2 the string API answers a single-text pattern
+(fast path) while the writer loop runs out of fuel -/
+example : obs (formatPattern tEnv 2 [.text [65]]) = some ([65], []) ∧ obs (writePatternTop tEnv 2 [.text [65]]) = .none ∧
+    obs (writePatternTop tEnv 3 [.text [65]]) = some ([65], []) := by decide +kernel
+
+/-- test: two insertion orders (one with an overwrite) of the same final map give the same `FluentArgs` -/
+example : ArgList.ofPairs [([120], Value.str [49]), ([121], .str [50])] =
+    ArgList.ofPairs [([121], .str [50]), ([120], .str [48]), ([120], .str [49])] := by decide +kernel
+
+/-- test: both APIs on `a { $x } b` with isolation on and `x` inserted in two ways -/
+example :
+    obs (formatPattern { tEnv with args := some (ArgList.ofPairs [([121], .str [50]), ([120], .str [48]), ([120], .str [49])]) } 9
+        [.text [97], .placeable (.inline (.var [120])), .text [98]]) =
+      some ([97, 0xE2, 0x81, 0xA8, 49, 0xE2, 0x81, 0xA9, 98], []) ∧
+    obs (writePatternTop { tEnv with args := some (ArgList.ofPairs [([120], .str [49]), ([121], .str [50])]) } 9
+        [.text [97], .placeable (.inline (.var [120])), .text [98]]) =
+      some ([97, 0xE2, 0x81, 0xA8, 49, 0xE2, 0x81, 0xA9, 98], []) := by decide +kernel
+
+end Tests
+
 end FluentProofs.C08
